@@ -1704,8 +1704,11 @@ enum Ins {
 #[derive(Clone, Debug, Serialize, Deserialize)]
 struct TkEntry {
     target: u8,
-    /// 0 diff against the base table, 1 replace, 2 drop
+    /// flags: 0 diff against the base table, 1 replace, 2 drop, 3 drop + replace
     mode: u8,
+    /// Some(k): same tag as the k-th earlier entry of the patch (duplicate tag)
+    #[serde(default)]
+    dup: Option<u8>,
     prog: Vec<Ins>,
     slack: u8,
 }
@@ -1736,7 +1739,10 @@ struct TkScenario {
     /// (tag, flags, max, stream) as encoded; and per entry the expected result (None = dropped)
     entries: Vec<(Tag4, u8, u32, Vec<u8>)>,
     results: Vec<Option<Vec<u8>>>,
+    /// flags of each entry (0 diff, 1 replace, 2 drop, 3 drop+replace)
     modes: Vec<u8>,
+    /// Some(flags of the first entry with the same tag) for entries that must be ignored
+    ignored: Vec<Option<u8>>,
     patch: Vec<u8>,
     tk_cp: u32,
     tk_in_x: bool,
@@ -1822,41 +1828,56 @@ impl TkScenario {
         let font = sfnt::assemble(version, &base.iter().map(|(t, d)| (*t, d.clone())).collect::<Vec<_>>());
         // --- patch
         let mut model = base.clone();
-        let mut seen = BTreeSet::new();
-        let (mut entries, mut results, mut modes) = (vec![], vec![], vec![]);
+        // Reference model (code at HEAD, following the IFT "apply table keyed patch" steps): entries are taken in
+        // order; an entry whose tag occurred in an earlier entry is ignored whatever its flags; of the first entry of
+        // a tag, DROP_TABLE (alone or together with REPLACE_TABLE) removes the table, REPLACE_TABLE decodes without
+        // dictionary, no flag decodes against the base font's table.
+        let mut seen: BTreeMap<Tag4, u8> = BTreeMap::new();
+        let (mut entries, mut results, mut modes, mut ignored): (Vec<(Tag4, u8, u32, Vec<u8>)>, Vec<Option<Vec<u8>>>, Vec<u8>, Vec<Option<u8>>) = (vec![], vec![], vec![], vec![]);
         for (i, e) in c.entries.iter().enumerate() {
             let mut tag = tk_tag(e.target);
-            if e.mode % 3 == 0 && !base.contains_key(&tag) {
-                // a diff needs a base table: retarget to an existing one
-                let have: Vec<Tag4> = base.keys().filter(|t| *t != b"keep").copied().collect();
-                if !have.is_empty() {
-                    tag = have[e.target as usize % have.len()];
+            let mut mode = e.mode % 4;
+            match e.dup {
+                Some(k) if !entries.is_empty() => tag = entries[k as usize % entries.len()].0,
+                _ => {
+                    if mode == 0 && !base.contains_key(&tag) {
+                        // a diff needs a base table: retarget to an existing one
+                        let have: Vec<Tag4> = base.keys().filter(|t| *t != b"keep").copied().collect();
+                        if !have.is_empty() {
+                            tag = have[e.target as usize % have.len()];
+                        }
+                    }
                 }
             }
-            if !seen.insert(tag) || tag == *b"keep" {
+            if tag == *b"keep" {
                 continue;
             }
+            let first = seen.get(&tag).copied();
             let old = base.get(&tag);
-            let mode = match (e.mode % 3, old) {
-                (0, None) => 1,
-                (m, _) => m,
-            };
-            if mode == 2 {
-                model.remove(&tag);
+            if first.is_none() && mode == 0 && old.is_none() {
+                mode = 1;
+            }
+            if first.is_none() {
+                seen.insert(tag, mode);
+            }
+            if mode >= 2 {
+                if first.is_none() {
+                    model.remove(&tag);
+                }
                 let junk = if e.slack & 1 == 1 { pat(salt(7, i as u64), e.slack as usize % 9) } else { vec![] };
-                entries.push((tag, 2u8, 0u32, junk));
+                entries.push((tag, mode, 0u32, junk));
                 results.push(None);
-                modes.push(2);
+                modes.push(mode);
+                ignored.push(first);
                 continue;
             }
             let mut stream = vec![if mode == 0 { b'D' } else { b'R' }];
             let mut result = vec![];
             for (k, ins) in e.prog.iter().enumerate() {
-                let lit: Vec<u8> = match (ins, mode) {
-                    (Ins::Lit(b), _) => b.clone(),
-                    (Ins::Pat(l, s), _) => pat(salt(*s as u64, k as u64), *l as usize),
-                    (Ins::Copy(o, l), 0) => {
-                        let old = old.unwrap();
+                let lit: Vec<u8> = match (ins, mode, old) {
+                    (Ins::Lit(b), _, _) => b.clone(),
+                    (Ins::Pat(l, s), _, _) => pat(salt(*s as u64, k as u64), *l as usize),
+                    (Ins::Copy(o, l), 0, Some(old)) => {
                         let off = idx(*o, old.len() + 1);
                         let len = idx(*l, old.len() - off + 1);
                         stream.push(b'C');
@@ -1865,20 +1886,25 @@ impl TkScenario {
                         result.extend_from_slice(&old[off..off + len]);
                         continue;
                     }
-                    (Ins::Copy(_, l), _) => pat(salt(8, k as u64), (*l >> 26) as usize),
+                    (Ins::Copy(_, l), _, _) => pat(salt(8, k as u64), (*l >> 26) as usize),
                 };
                 stream.push(b'L');
                 be32(&mut stream, lit.len() as u32);
                 stream.extend_from_slice(&lit);
                 result.extend_from_slice(&lit);
             }
-            entries.push((tag, if mode == 1 { 1 } else { 0 }, (result.len() + e.slack as usize) as u32, stream));
-            model.insert(tag, result.clone());
-            results.push(Some(result));
+            entries.push((tag, mode, (result.len() + e.slack as usize) as u32, stream));
+            if first.is_none() {
+                model.insert(tag, result.clone());
+                results.push(Some(result));
+            } else {
+                results.push(None);
+            }
             modes.push(mode);
+            ignored.push(first);
         }
         let patch = encode_tk_patch(if tk_in_x { compat_x } else { compat }, &entries);
-        TkScenario { base, font, version, model, entries, results, modes, patch, tk_cp, tk_in_x, def_cps, compat, compat_x }
+        TkScenario { base, font, version, model, entries, results, modes, ignored, patch, tk_cp, tk_in_x, def_cps, compat, compat_x }
     }
     fn sibling_font(&self) -> Vec<u8> {
         let mut t: Vec<(Tag4, Vec<u8>)> = self.base.iter().map(|(t, d)| (*t, d.clone())).collect();
@@ -1893,6 +1919,9 @@ impl TkScenario {
         let got = tables_of(out, what)?;
         for (i, (tag, _, _, _)) in self.entries.iter().enumerate() {
             let name = tag_str(tag);
+            if self.ignored[i].is_some() {
+                continue; // a later entry of the same tag: the model (and the final comparison below) ignores it
+            }
             match (&self.results[i], got.get(tag)) {
                 (None, Some(_)) => return Err(fail("tk|dropped-present", format!("{what}: table {name} carries the drop flag but is present"))),
                 (None, None) => {}
@@ -2010,7 +2039,7 @@ fn test_tk(c: &TkCase, stats: &Stats) -> CaseResult {
     let r = guarded(|| font.apply_table_keyed_patch(&foreign, &sc.patch, &Dec::ok()))?;
     expect_failure(r, None, "compat|foreign-info", "PatchInfo from a font with another compatibility id")?;
     // (5) a decoder failure that is not injected
-    let live: Vec<usize> = (0..sc.entries.len()).filter(|i| sc.results[*i].is_some()).collect();
+    let live: Vec<usize> = (0..sc.entries.len()).filter(|i| sc.results[*i].is_some() && sc.ignored[*i].is_none()).collect();
     if !live.is_empty() {
         let j = live[c.natural.0 as usize % live.len()];
         let mut es = sc.entries.clone();
@@ -2030,8 +2059,17 @@ fn test_tk(c: &TkCase, stats: &Stats) -> CaseResult {
     }
     // --- evidence
     let kinds: BTreeSet<u8> = sc.modes.iter().copied().collect();
-    for m in &sc.modes {
-        stats.class(["tk:diff", "tk:replace", "tk:drop"][*m as usize]);
+    for (i, m) in sc.modes.iter().enumerate() {
+        let names = ["diff", "replace", "drop", "drop+replace"];
+        match sc.ignored[i] {
+            None => stats.class(&format!("tk:{}", names[*m as usize])),
+            Some(f) => {
+                stats.class(&format!("tk:duplicate-tag:{}-then-{}:{}", names[f as usize], names[*m as usize], if sc.base.contains_key(&sc.entries[i].0) { "table-in-font" } else { "table-not-in-font" }));
+                if sc.ignored[..i].iter().zip(&sc.entries[..i]).any(|(g, e)| g.is_some() && e.0 == sc.entries[i].0) {
+                    stats.class("tk:tag-listed-3+-times");
+                }
+            }
+        }
     }
     stats.class(&format!("tk:entries={}", sc.entries.len().min(5)));
     stats.class(if c.format % 2 == 1 { "tk:fully-invalidating" } else { "tk:partially-invalidating" });
@@ -2070,7 +2108,7 @@ fn tk_strategy() -> impl Strategy<Value = TkCase> {
     (
         (
             proptest::collection::vec((0u8..12, prop_oneof![1 => Just(0u16), 4 => 1u16..60, 2 => 60u16..3000], any::<u16>()), 0..8),
-            proptest::collection::vec((0u8..14, prop_oneof![3 => Just(0u8), 3 => Just(1u8), 2 => Just(2u8)], proptest::collection::vec(ins_strategy(), 0..6), any::<u8>()).prop_map(|(target, mode, prog, slack)| TkEntry { target, mode, prog, slack }), 0..7),
+            proptest::collection::vec((0u8..14, prop_oneof![3 => Just(0u8), 3 => Just(1u8), 2 => Just(2u8), 1 => Just(3u8)], proptest::collection::vec(ins_strategy(), 0..6), any::<u8>(), proptest::option::weighted(0.3, any::<u8>())).prop_map(|(target, mode, prog, slack, dup)| TkEntry { target, mode, prog, slack, dup }), 0..7),
         ),
         (any::<bool>(), 0u8..3, 1u8..=2, any::<[u32; 4]>(), 0u8..4, 0u8..4),
         (proptest::collection::vec((any::<bool>(), any::<u16>(), 0u8..3), 0..4), (any::<u8>(), any::<u8>()), (any::<u8>(), any::<u8>()), any::<u32>()),
@@ -2204,7 +2242,7 @@ fn known_case(i: u64) -> GkCase {
 
 fn main() {
     let ctx = Ctx::from_args("C18");
-    ctx.set_rule("Generated scenarios: synthetic base font (glyf+loca / gvar / CFF / CFF2 in 9 combinations, opaque per-glyph data, short and long offsets, INDEX offSize 1..4, sizes planted within +-4 bytes of the 131070 / 254 / 65534 limits on half of the cases), hand-encoded format-2 IFT/IFTX tables with decoy entries, 1..5 glyph-keyed patches (overlapping glyph sets with equal data, u16/u24 ids, 1..3 glyph tables plus, on 40 % of the patches, 1..3 listed tags that cannot be glyph-keyed (hmtx/head/maxp/name/cmap/OS/2/loca/an extra table present in the font, or tags absent from it) at any position of the sorted tag list, lengths 0/odd/even/large) or one table-keyed patch (replace / diff / drop per table), transparent decoder with a fault at call k for every k and every DecodeError kind. Non-trivial: a glyph-keyed application that keeps and replaces glyphs of one table and changes its total size (or is refused for short-loca overflow), or a fault injected at k >= 2; a table-keyed patch with >= 2 entries of different kinds. Distinct by hash of the case.");
+    ctx.set_rule("Generated scenarios: synthetic base font (glyf+loca / gvar / CFF / CFF2 in 9 combinations, opaque per-glyph data, short and long offsets, INDEX offSize 1..4, sizes planted within +-4 bytes of the 131070 / 254 / 65534 limits on half of the cases), hand-encoded format-2 IFT/IFTX tables with decoy entries, 1..5 glyph-keyed patches (overlapping glyph sets with equal data, u16/u24 ids, 1..3 glyph tables plus, on 40 % of the patches, 1..3 listed tags that cannot be glyph-keyed (hmtx/head/maxp/name/cmap/OS/2/loca/an extra table present in the font, or tags absent from it) at any position of the sorted tag list, lengths 0/odd/even/large) or one table-keyed patch (0..6 entries: replace / diff / drop / drop+replace flags, 30 % of the entries repeat the tag of an earlier entry with any flags, on tables present in and absent from the font; model: the first entry of a tag decides, later ones are ignored), transparent decoder with a fault at call k for every k and every DecodeError kind. Non-trivial: a glyph-keyed application that keeps and replaces glyphs of one table and changes its total size (or is refused for short-loca overflow), or a fault injected at k >= 2; a table-keyed patch with >= 2 entries of different kinds. Distinct by hash of the case.");
     ctx.assume("the oracle's own sfnt reader (vcore::sfnt) and loca / gvar / INDEX decoders; the library's sparse-bit-set writer is used to encode entry code points; URIs are discovered by querying intersecting_patches with each entry's private code point");
     ctx.prop_stage("glyph-keyed", Isolation::Threads, ctx.n(24_000, 280_000), gk_strategy, test_gk);
     ctx.prop_stage("table-keyed", Isolation::Threads, ctx.n(40_000, 500_000), tk_strategy, test_tk);
